@@ -27,10 +27,11 @@ from ural import infer_redirection
 
 FN = "ural.infer_redirection.infer_redirection"
 RECLIMIT = 300          # tripwire (the statement wants a bounded number of steps; legitimate chains here need < 40 frames)
-ORBIT_SOFT = 64         # one-step applications followed in the normal case
-ORBIT_HARD = 400        # ... before an orbit is called divergent
+ORBIT_STEPS = 64        # one-step applications followed before an orbit is left "open"
+RETRY_LIMIT = 3000      # recursion limit of the second look at a chain that is long without an obvious growth pattern
 PROV_LINKS = 8          # links of the chain on which provenance is evaluated
 FAMILY_CAP = 40         # violations kept per (clause, family) and shard (all are counted)
+PER_CLAUSE = 40         # violations reported per clause (cap of bcheck.common.Collector), shared evenly by the families
 
 
 # ---------------------------------------------------------------------------------------------------------------------
@@ -41,6 +42,7 @@ class Ctx(object):
         self.col = col
         self.fam = {}            # "clause/family" -> number of violating (input, flag) pairs (uncapped)
         self.kept = {}
+        self.viols = []          # kept violations (the Collector caps per clause, families are balanced in main())
         self.tmax = 0.0
         self.tmax_input = None
         self.followed = 0
@@ -53,8 +55,9 @@ class Ctx(object):
         if self.kept.get(k, 0) >= FAMILY_CAP:
             return
         self.kept[k] = self.kept.get(k, 0) + 1
-        self.col.violation(clause, FN, {"url": url, "recursive": recursive}, observed, expected,
-                           ("family=" + family + ("; " + note if note else "")))
+        self.viols.append({"clause": clause, "function": FN, "input": {"url": url, "recursive": recursive},
+                           "observed": observed, "expected": expected,
+                           "note": "family=" + family + ("; " + note if note else "")})
 
 
 def guarded(ctx, url, recursive, limit=RECLIMIT):
@@ -88,9 +91,8 @@ def show(r):
 def orbit(ctx, x, first):
     """iterate the NON-recursive function from x.  first = guarded(x, False).
     returns (chain, outcome): 'fix' (chain[-1] is mapped to itself), 'cycle' (a previous element other than the last
-    one is reached again), 'divergent' (no repetition within ORBIT_HARD steps), 'exc' (an application failed)"""
+    one is reached again), 'open' (neither within ORBIT_STEPS applications), 'exc' (an application failed)"""
     chain = [x]
-    seen = {x}
     cur, nxt = x, first
     while True:
         if not is_str_result(nxt):
@@ -98,15 +100,20 @@ def orbit(ctx, x, first):
         y = nxt[1]
         if y == cur:
             return chain, "fix"
-        if y in seen:
+        if y in chain:
             chain.append(y)
             return chain, "cycle"
         chain.append(y)
-        seen.add(y)
         cur = y
-        if len(chain) > ORBIT_HARD:
-            return chain, "divergent"
+        if len(chain) > ORBIT_STEPS:
+            return chain, "open"
         nxt = guarded(ctx, cur, False)
+
+
+def grows_steadily(chain):
+    """the last 32 links all lengthen the URL by the same positive amount"""
+    d = [len(b) - len(a) for a, b in zip(chain[-33:], chain[-32:])]
+    return len(d) == 32 and d[0] > 0 and all(k == d[0] for k in d)
 
 
 def step_kind(y, z):
@@ -176,22 +183,28 @@ def check_url(ctx, x):
         if r_rc[1] == "RecursionError":
             confirmed, family, detail = True, outcome, ""
             if outcome == "fix":
+                # the chain converges in k <= ORBIT_STEPS steps: a terminating recursion needs k + 1 frames, far below the
+                # tripwire, so the recursion really does not stop at the one-step fixed point
                 k = len(chain) - 1
-                if k > RECLIMIT - 100:
-                    # a long but converging chain: the tripwire was too low for this input, retry high
-                    r_hi = guarded(ctx, x, True, limit=k + 400)
-                    if r_hi[0] == "ok":
-                        confirmed, r_rc = False, r_hi
-                if confirmed:
-                    family = "self-loop"
-                    p = chain[-1]
-                    detail = ("the one-step function maps %r to itself after %d step(s), yet the recursive call never stops "
-                              "there (it keeps re-entering on an inferred target equal to its argument)" % (short(p, 80), k))
+                family = "self-loop"
+                detail = ("the one-step function maps %r to itself after %d step(s), yet the recursive call never stops "
+                          "there (it keeps re-entering on an inferred target equal to its argument)" % (short(chain[-1], 80), k))
             elif outcome == "cycle":
                 detail = "one-step orbit enters a cycle: " + " -> ".join(short(c, 60) for c in chain[-4:])
-            elif outcome == "divergent":
-                detail = ("one-step orbit never repeats within %d applications; it grows: len %d -> %d, e.g. %r -> %r -> %r"
-                          % (ORBIT_HARD, len(chain[0]), len(chain[-1]), short(chain[0], 50), short(chain[1], 50), short(chain[2], 50)))
+            elif outcome == "open":
+                if grows_steadily(chain):
+                    family = "divergent"
+                    detail = ("one-step orbit has no fixed point: every application lengthens the URL by %d characters "
+                              "(followed for %d applications), e.g. %r -> %r -> %r"
+                              % (len(chain[-1]) - len(chain[-2]), ORBIT_STEPS, short(chain[0], 50), short(chain[1], 50), short(chain[2], 50)))
+                else:
+                    # long chain without an obvious pattern: look again with a much higher limit before judging
+                    r_hi = guarded(ctx, x, True, limit=RETRY_LIMIT)
+                    if r_hi[0] == "ok":
+                        confirmed, r_rc = False, r_hi
+                    else:
+                        family = "long-chain"
+                        detail = "no fixed point within %d one-step applications, still recursing at depth %d" % (ORBIT_STEPS, RETRY_LIMIT)
             else:
                 family = "one-step-raises"
             if confirmed:
@@ -254,7 +267,7 @@ def check_url(ctx, x):
 # (A) exhaustive token sequences
 # ---------------------------------------------------------------------------------------------------------------------
 TOK_QUICK = ["u=", "url=", "q=", "xu=", "/", "?", "&", "#", "a", "http://", "https://b.c", "%2F", "%3F", "%25"]
-TOK_THOROUGH = TOK_QUICK + ["next=", "%3D", "..", "@"]
+TOK_THOROUGH = TOK_QUICK + ["..", "@"]
 
 
 def exh_shards(tokens, maxlen):
@@ -320,8 +333,8 @@ LEAVES = [
     # cache URLs as targets
     "https://a-com.cdn.ampproject.org/c/s/b.c/x", "https://a-com.cdn.ampproject.org/v/s/", "https://bc.marfeel.com/b.c/x",
 ]
-LEAVES_SMALL = ["http://b.c/", "https://b.c/x?y=1&z=2#f", "https://", "b.c/x", "/x", "/", "//", "//b.c/x", "//?x", "//#f",
-                "/?u=/x", "/?u=//", "/..", "", "x", "https://a-com.cdn.ampproject.org/c/s/b.c/x"]
+LEAVES_SMALL = ["http://b.c/", "https://b.c/x?y=1&z=2#f", "https://", "b.c/x", "/x", "/", "//", "//b.c/x", "//?x", "/?u=/x",
+                "/..", "", "x", "https://a-com.cdn.ampproject.org/c/s/b.c/x", "//#f", "/?u=//"]
 
 
 def enc_full(s):
@@ -367,55 +380,63 @@ def outer(shapes, keys, residue, mod):
             i += 1
 
 
+def uniq(it):
+    return list(dict.fromkeys(it))
+
+
 def gen_struct(tier, level, residue=None, mod=1):
     """level-nested redirect URLs; (residue, mod) selects the outermost (shape, key) pairs of one shard"""
     quick = tier == "quick"
     if level == 1:
         for sh, key in outer(SHAPES, KEYS_ALL, residue, mod):
-            for leaf in LEAVES + self_leaves(sh, key):
-                for enc in ENCS:
-                    yield fill(sh, key, enc(leaf))
+            for v in uniq(enc(leaf) for leaf in LEAVES + self_leaves(sh, key) for enc in ENCS):
+                yield fill(sh, key, v)
     elif level == 2:
-        outer_keys = ["url", "u", "q", "next", "Q", "xu"] if quick else ["url", "u", "l", "q", "next", "redirect_to", "goto", "Q", "U", "xu"]
+        outer_keys = ["url", "u", "q", "next", "Q", "xu"] if quick else ["url", "u", "l", "q", "next", "redirect_to", "Q", "xu"]
         outer_encs = [enc_full, enc_none] if quick else ENCS
         in_shapes = SHAPES_IN[:8] if quick else SHAPES_IN
-        in_keys = ["u", "url", "q", "redirect_to"] if quick else ["u", "url", "q", "redirect_to", "next", "xu"]
-        in_leaves = LEAVES_SMALL if quick else LEAVES
+        in_keys = ["u", "url", "q", "redirect_to"] if quick else ["u", "url", "q", "redirect_to", "xu"]
+        in_leaves = LEAVES_SMALL[:14] if quick else LEAVES
         in_encs = [enc_full, enc_none] if quick else ENCS
-        inner = [fill(s2, k2, e2(leaf)) for s2 in in_shapes for k2 in in_keys for leaf in in_leaves for e2 in in_encs]
-        for enc in outer_encs:
-            values = [enc(u) for u in inner]
-            for sh, key in outer(SHAPES, outer_keys, residue, mod):
-                for v in values:
-                    yield fill(sh, key, v)
+        inner = uniq(fill(s2, k2, e2(leaf)) for s2 in in_shapes for k2 in in_keys for leaf in in_leaves for e2 in in_encs)
+        values = uniq(enc(u) for enc in outer_encs for u in inner)
+        for sh, key in outer(SHAPES, outer_keys, residue, mod):
+            for v in values:
+                yield fill(sh, key, v)
     elif level == 3:
-        sh3 = SHAPES[:4] + ["?{P}", "{P}", "http://a.com/p&{P}", "http://a.com/p#x&{P}"] if quick else SHAPES
+        sh3 = SHAPES[:4] + ["?{P}", "{P}", "http://a.com/p&{P}", "http://a.com/p#x&{P}"] if quick else SHAPES[:4] + SHAPES[6:9] + SHAPES[11:20]
         k3 = ["u", "q", "url"] if quick else ["u", "q", "url", "next"]
         mid_sh = SHAPES_IN[:8]
         mid_k = ["u", "next"] if quick else ["u", "next", "q"]
         in_sh = SHAPES_IN[:8]
         in_k = ["u", "url"] if quick else ["u", "url", "q"]
-        leaves = LEAVES_SMALL if quick else LEAVES[:11] + LEAVES[14:34]
+        leaves = LEAVES_SMALL[:14] if quick else LEAVES[:11] + LEAVES[14:34]
+        values = []
         for encs in ([(enc_full, enc_full, enc_full), (enc_none, enc_none, enc_none)] if quick else
                      [(enc_full, enc_full, enc_full), (enc_none, enc_none, enc_none), (enc_full, enc_full, enc_none)]):
             inner = [fill(s, k, encs[2](leaf)) for s in in_sh for k in in_k for leaf in leaves]
-            values = [encs[0](fill(s, k, encs[1](u))) for s in mid_sh for k in mid_k for u in inner]
-            for sh, key in outer(sh3, k3, residue, mod):
-                for v in values:
-                    yield fill(sh, key, v)
+            values.extend(encs[0](fill(s, k, encs[1](u))) for s in mid_sh for k in mid_k for u in inner)
+        values = uniq(values)
+        for sh, key in outer(sh3, k3, residue, mod):
+            for v in values:
+                yield fill(sh, key, v)
     elif level == 4:
         sh = ["http://a.com/p?{P}", "?{P}", "{P}", "http://a.com/p&{P}", "https://www.youtube.com/redirect?{P}", "/p?{P}"]
         sh_out = sh + ["https://a.com?{P}", "http://a.com/p#x&{P}"]
+        if quick:
+            sh = sh[:5]
         ks = ["u", "q"]
         ks_out = ["u", "q", "url"]
-        leaves = LEAVES_SMALL[:12] if quick else LEAVES_SMALL + ["//?", "//#", "http://b.c", "///"]
+        leaves = LEAVES_SMALL[:10] if quick else LEAVES_SMALL + ["//?", "//#", "http://b.c", "///"]
+        values = []
         for e in ([enc_full] if quick else [enc_full, enc_none]):
             l1 = [fill(s, k, e(leaf)) for s in sh for k in ks for leaf in leaves]
             l2 = [fill(s, k, e(u)) for s in sh for k in ks for u in l1]
-            values = [e(fill(s, k, e(u))) for s in sh for k in ks for u in l2]
-            for s, k in outer(sh_out, ks_out, residue, mod):
-                for v in values:
-                    yield fill(s, k, v)
+            values.extend(e(fill(s, k, e(u))) for s in sh for k in ks for u in l2)
+        values = uniq(values)
+        for s, k in outer(sh_out, ks_out, residue, mod):
+            for v in values:
+                yield fill(s, k, v)
 
 
 # ---------------------------------------------------------------------------------------------------------------------
@@ -462,7 +483,7 @@ def gen_cache(tier):
 # ---------------------------------------------------------------------------------------------------------------------
 # (D) seeded random
 # ---------------------------------------------------------------------------------------------------------------------
-SOUP = TOK_THOROUGH + ["l=", "redirect_to=", "goto=", "Q=", "U=", "uu=", "=", "//", "%26", "%23", "%252F", "%253F", "%2f", ":", ".",
+SOUP = TOK_THOROUGH + ["next=", "%3D", "l=", "redirect_to=", "goto=", "Q=", "U=", "uu=", "=", "//", "%26", "%23", "%252F", "%253F", "%2f", ":", ".",
                        "b.c", "a.com", "x", "[", "]", "[::1]", " ", "+", ";", "%", "%C3%A9", "é", "%E9", "%00",
                        "youtube.com/redirect?", "/url?q=", "/redirect", ".ampproject.org/c/s/", ".ampproject.org/v/",
                        "bc.marfeel.com/", "bc.marfeelcache.com/amp/", "https://", "http://a.com/", "www."]
@@ -499,7 +520,6 @@ STRUCT_MOD = 24
 def shard_worker(job):
     tier, seed, spec = job
     col = Collector("C15", tier, seed)
-    col.max_violations = 10 ** 9
     ctx = Ctx(col)
     kind = spec[0]
     if kind == "exh":
@@ -514,14 +534,10 @@ def shard_worker(job):
     else:
         _, shard, n = spec
         it = gen_random(seed, shard, n)
-    seen_local = set()
     for x in it:
-        if kind != "exh":
-            if x in seen_local:
-                continue
-            seen_local.add(x)
         check_url(ctx, x)
     part = col.partial()
+    part["violations"] = ctx.viols
     part["fam"] = ctx.fam
     part["tmax"] = (ctx.tmax, ctx.tmax_input)
     part["followed"] = ctx.followed
@@ -547,13 +563,44 @@ def plan(tier, seed):
     for i in range(rshards):
         jobs.append((tier, seed, ("rand", i, nrand)))
     return jobs, {"token_alphabet": tokens, "token_sequence_length": maxlen, "nesting_levels": 4,
-                  "random_inputs": nrand * rshards, "recursion_tripwire": RECLIMIT, "orbit_steps": ORBIT_HARD,
+                  "random_inputs": nrand * rshards, "recursion_tripwire": RECLIMIT, "orbit_steps": ORBIT_STEPS,
                   "shapes": len(SHAPES), "keys": len(KEYS_ALL), "leaf_targets": len(LEAVES), "encodings": 3,
                   "cache_prefixes": len(CACHE_PREFIXES), "cache_tails": len(CACHE_TAILS)}
 
 
 def vkey(v):
     return (len(v["input"]["url"]), v["input"]["url"], v["input"]["recursive"])
+
+
+CLAUSE_ORDER = ["terminates", "fixed-point", "recursive-equals-iterated", "one-step-provenance", "returns-str"]
+HEAD = 6
+
+
+def report(col, viols):
+    """hand the shortest witnesses to the Collector: at most PER_CLAUSE per clause, the families of a clause taking turns;
+    the HEAD shortest witnesses of every family come first (the runner writes replay files for the first violations only)"""
+    clauses = {}
+    for v in viols:
+        clauses.setdefault(v["clause"], {}).setdefault(v["note"].split(";")[0], []).append(v)
+    head, tail = [], []
+    for clause in sorted(clauses, key=lambda c: (CLAUSE_ORDER.index(c) if c in CLAUSE_ORDER else 99, c)):
+        fams = []
+        for f in sorted(clauses[clause]):
+            uniq_v = {}
+            for v in sorted(clauses[clause][f], key=vkey):
+                uniq_v.setdefault(vkey(v), v)
+            fams.append(list(uniq_v.values()))
+        picked = []
+        rank = 0
+        while len(picked) < PER_CLAUSE and any(rank < len(f) for f in fams):
+            for f in fams:
+                if rank < len(f) and len(picked) < PER_CLAUSE:
+                    picked.append((rank, f[rank]))
+            rank += 1
+        head.extend(v for r, v in picked if r < HEAD)
+        tail.extend(v for r, v in picked if r >= HEAD)
+    for v in head + tail:
+        col.violation(v["clause"], v["function"], v["input"], v["observed"], v["expected"], v["note"])
 
 
 def main():
@@ -565,10 +612,12 @@ def main():
         url = inp["url"] if isinstance(inp, dict) else inp
         ctx = Ctx(col)
         check_url(ctx, url)
+        viols = ctx.viols
         if isinstance(inp, dict) and "recursive" in inp and rp.get("clause") in ("terminates", "returns-str"):
             # these two clauses are per (url, flag): keep the replayed flag only
-            col.violations = [v for v in col.violations
-                              if v["clause"] not in ("terminates", "returns-str") or v["input"]["recursive"] == inp["recursive"]]
+            viols = [v for v in viols
+                     if v["clause"] not in ("terminates", "returns-str") or v["input"]["recursive"] == inp["recursive"]]
+        report(col, viols)
         col.rule = "replay of one input: all clauses are re-evaluated on it"
         col.dump(a.out)
         return
@@ -594,16 +643,7 @@ def main():
         viols.extend(p["violations"])
         p["violations"] = []
         col.merge(p)
-    # keep the shortest witnesses of every (clause, family), families interleaved, at most col.max_violations in total
-    buckets = {}
-    for v in viols:
-        buckets.setdefault((v["clause"], v["note"].split(";")[0]), []).append(v)
-    for b in buckets.values():
-        b.sort(key=vkey)
-    per = max(10, col.max_violations // max(1, len(buckets)))
-    for key in sorted(buckets):
-        for v in buckets[key][:per]:
-            col.violation(v["clause"], v["function"], v["input"], v["observed"], v["expected"], v["note"])
+    report(col, viols)
 
     for s in ["u=//", "http://a.com/p?u=%2Fx", "https://www.google.com/url?sa=t&q=https%3A%2F%2Fb.c%2Fx%3Fy%3D1&usg=A",
               "http://a.com/p?url=http%3A%2F%2Fb.c%2Fp%3Fnext%3Dhttp%253A%252F%252Fb.c%252F",
